@@ -4,44 +4,46 @@ Rendering a structured query through the documented grammar and parsing it back.
 -/
 namespace GitBugModel.Query
 
-/-- a token as it is written: `qualifier:"value"`, `metadata:key:"value"`, `"search term"` -/
+/-- a token as it is written: `qualifier:"value"`, `metadata:key:"value"`, `"search term"` — each
+value between two quote characters `qc` of one kind (double or single) -/
 inductive RTok where
-  | kv (q v : List Char)
-  | kvv (q sub v : List Char)
-  | search (v : List Char)
+  | kv (qc : Char) (q v : List Char)
+  | kvv (qc : Char) (q sub v : List Char)
+  | search (qc : Char) (v : List Char)
 deriving Repr
 
 def RTok.render : RTok → List Char
-  | .kv q v => q ++ ':' :: '"' :: (v ++ ['"'])
-  | .kvv q sub v => q ++ ':' :: (sub ++ ':' :: '"' :: (v ++ ['"']))
-  | .search v => '"' :: (v ++ ['"'])
+  | .kv qc q v => q ++ ':' :: qc :: (v ++ [qc])
+  | .kvv qc q sub v => q ++ ':' :: (sub ++ ':' :: qc :: (v ++ [qc]))
+  | .search qc v => qc :: (v ++ [qc])
 
 def RTok.toToken : RTok → Token
-  | .kv q v => .kv q v
-  | .kvv q sub v => .kvv q sub v
-  | .search v => .search v
+  | .kv _ q v => .kv q v
+  | .kvv _ q sub v => .kvv q sub v
+  | .search _ v => .search v
 
 /-- the same token as plain runs and quoted sections, for the split on spaces -/
 def RTok.segs : RTok → List Seg
-  | .kv q v => [.plain (q ++ [':']), .quoted v]
-  | .kvv q sub v => [.plain (q ++ ':' :: (sub ++ [':'])), .quoted v]
-  | .search v => [.quoted v]
+  | .kv qc q v => [.plain (q ++ [':']), .quoted qc v]
+  | .kvv qc q sub v => [.plain (q ++ ':' :: (sub ++ [':'])), .quoted qc v]
+  | .search qc v => [.quoted qc v]
 
 theorem RTok.render_segs (t : RTok) : renderSegs t.segs = t.render := by
   cases t <;> simp [RTok.segs, RTok.render, renderSegs, Seg.render]
 
-/-- well-formed written token: qualifier words, no space in them, no double quote in the value -/
+/-- well-formed written token: qualifier words, no space in them, a quote character around a
+value that does not hold that character -/
 def RTok.ok (isSpace : Char → Bool) : RTok → Prop
-  | .kv q v => Word q ∧ (∀ c ∈ q, isSpace c = false) ∧ ∀ c ∈ v, c ≠ '"'
-  | .kvv q sub v => Word q ∧ Word sub ∧ (∀ c ∈ q, isSpace c = false) ∧ (∀ c ∈ sub, isSpace c = false) ∧ ∀ c ∈ v, c ≠ '"'
-  | .search v => ∀ c ∈ v, c ≠ '"'
+  | .kv qc q v => Word q ∧ (∀ c ∈ q, isSpace c = false) ∧ isQuote qc = true ∧ ∀ c ∈ v, c ≠ qc
+  | .kvv qc q sub v => Word q ∧ Word sub ∧ (∀ c ∈ q, isSpace c = false) ∧ (∀ c ∈ sub, isSpace c = false) ∧ isQuote qc = true ∧ ∀ c ∈ v, c ≠ qc
+  | .search qc v => isQuote qc = true ∧ ∀ c ∈ v, c ≠ qc
 
 theorem tokenOfField_rendered (isSpace : Char → Bool) (t : RTok) (h : t.ok isSpace) :
     tokenOfField t.render = .ok t.toToken := by
   cases t with
-  | kv q v => exact token_kv q v h.1 h.2.2
-  | kvv q sub v => exact token_kvv q sub v h.1 h.2.1 h.2.2.2.2
-  | search v => exact token_search v h
+  | kv qc q v => exact token_kv qc h.2.2.1 q v h.1 h.2.2.2
+  | kvv qc q sub v => exact token_kvv qc h.2.2.2.2.1 q sub v h.1 h.2.1 h.2.2.2.2.2
+  | search qc v => exact token_search qc h.1 v h.2
 
 theorem tokenizeFields_rendered (isSpace : Char → Bool) (ts : List RTok) (h : ∀ t ∈ ts, t.ok isSpace) :
     tokenizeFields (ts.map RTok.render) = .ok (ts.map RTok.toToken) := by
@@ -55,7 +57,7 @@ theorem segs_ok (isSpace : Char → Bool) (hcolon : isSpace ':' = false) (t : RT
     (∀ s ∈ t.segs, s.ok isSpace) ∧ renderSegs t.segs ≠ [] := by
   have colonQ : isQuote ':' = false := by decide
   cases t with
-  | kv q v =>
+  | kv qc q v =>
     refine ⟨?_, by simp [RTok.segs, renderSegs, Seg.render]⟩
     intro s hs
     simp only [RTok.segs, List.mem_cons, List.mem_nil_iff, or_false] at hs
@@ -66,7 +68,7 @@ theorem segs_ok (isSpace : Char → Bool) (hcolon : isSpace ':' = false) (t : RT
       · have : c = ':' := by simpa using hc
         subst this; exact ⟨hcolon, colonQ⟩
     · exact h.2.2
-  | kvv q sub v =>
+  | kvv qc q sub v =>
     refine ⟨?_, by simp [RTok.segs, renderSegs, Seg.render]⟩
     intro s hs
     simp only [RTok.segs, List.mem_cons, List.mem_nil_iff, or_false] at hs
@@ -82,14 +84,15 @@ theorem segs_ok (isSpace : Char → Bool) (hcolon : isSpace ':' = false) (t : RT
           · have : c = ':' := by simpa using hc'
             subst this; exact ⟨hcolon, colonQ⟩
     · exact h.2.2.2.2
-  | search v =>
+  | search qc v =>
     refine ⟨?_, by simp [RTok.segs, renderSegs, Seg.render]⟩
     intro s hs
     simp only [RTok.segs, List.mem_singleton] at hs
     subst hs; exact h
 
 /-- `tokenize_rendered`: written tokens separated by one space come back as exactly those tokens,
-whatever their values hold besides the double quote (spaces, colons, single quotes, unicode) -/
+whatever their values hold besides the quote character they are written between (spaces, colons,
+the other kind of quote, unicode) -/
 theorem tokenize_rendered (isSpace : Char → Bool) (hsp : isSpace ' ' = true) (hcolon : isSpace ':' = false)
     (ts : List RTok) (hne : ts ≠ []) (h : ∀ t ∈ ts, t.ok isSpace) :
     tokenize isSpace (joined ' ' (ts.map RTok.segs)) = .ok (ts.map RTok.toToken) := by
@@ -122,18 +125,22 @@ theorem parseSorting_sortName (ob : OrderBy) (d : Dir) : parseSorting (sortName 
 
 def statusName (s : Nat) : String := if s == 1 then "open" else "closed"
 
-/-- the written tokens of a structured query, in the order of `doc/queries.md` -/
+/-- the quote character to write a value with: double quotes, unless the value holds one -/
+def quoteFor (v : String) : Char := if v.toList.contains '"' then '\'' else '"'
+
+/-- the written tokens of a structured query, in the order of `doc/queries.md`; every value in the
+kind of quotes it does not contain -/
 def renderQuery (q : Query) : List RTok :=
-  q.status.map (fun s => .kv "status".toList (statusName s).toList) ++
-  q.author.map (fun v => .kv "author".toList v.toList) ++
-  q.actor.map (fun v => .kv "actor".toList v.toList) ++
-  q.participant.map (fun v => .kv "participant".toList v.toList) ++
-  q.label.map (fun v => .kv "label".toList v.toList) ++
-  q.title.map (fun v => .kv "title".toList v.toList) ++
-  q.metadata.map (fun kv => .kvv "metadata".toList kv.1.toList kv.2.toList) ++
-  (if q.noLabel then [.kv "no".toList "label".toList] else []) ++
-  q.search.map (fun v => .search v.toList) ++
-  [.kv "sort".toList (sortName q.orderBy q.dir).toList]
+  q.status.map (fun s => .kv '"' "status".toList (statusName s).toList) ++
+  q.author.map (fun v => .kv (quoteFor v) "author".toList v.toList) ++
+  q.actor.map (fun v => .kv (quoteFor v) "actor".toList v.toList) ++
+  q.participant.map (fun v => .kv (quoteFor v) "participant".toList v.toList) ++
+  q.label.map (fun v => .kv (quoteFor v) "label".toList v.toList) ++
+  q.title.map (fun v => .kv (quoteFor v) "title".toList v.toList) ++
+  q.metadata.map (fun kv => .kvv (quoteFor kv.2) "metadata".toList kv.1.toList kv.2.toList) ++
+  (if q.noLabel then [.kv '"' "no".toList "label".toList] else []) ++
+  q.search.map (fun v => .search (quoteFor v) v.toList) ++
+  [.kv '"' "sort".toList (sortName q.orderBy q.dir).toList]
 
 /-- one block of `author:"…"` tokens (and the like) appends its values -/
 theorem block_simple (clean : String → String) (name : String) (upd : Query → String → Query)
@@ -305,8 +312,23 @@ theorem qualifier_ok (isSpace : Char → Bool) (hlow : ∀ c : Char, c.isLower =
     rcases hw with rfl | rfl | rfl | rfl | rfl | rfl | rfl | rfl | rfl <;> decide
   exact ⟨⟨hne, fun c hc => (hall c hc).2⟩, fun c hc => hlow c (hall c hc).1⟩
 
-/-- values that can be written between double quotes -/
-def Quotable (v : String) : Prop := ∀ c ∈ v.toList, c ≠ '"'
+/-- values the grammar can express: not holding both kinds of quote -/
+def Quotable (v : String) : Prop := ¬ ('"' ∈ v.toList ∧ '\'' ∈ v.toList)
+
+/-- the chosen quote character is a quote and does not occur in the value -/
+theorem quoteFor_ok (v : String) (h : Quotable v) : isQuote (quoteFor v) = true ∧ ∀ c ∈ v.toList, c ≠ quoteFor v := by
+  unfold quoteFor
+  by_cases hd : v.toList.contains '"' = true
+  · rw [if_pos hd]
+    refine ⟨by decide, ?_⟩
+    intro c hc e
+    subst e
+    exact h ⟨by simpa using hd, hc⟩
+  · rw [if_neg hd]
+    refine ⟨by decide, ?_⟩
+    intro c hc e
+    subst e
+    exact hd (by simpa using hc)
 
 theorem renderQuery_ok (isSpace : Char → Bool) (hlow : ∀ c : Char, c.isLower = true → isSpace c = false) (q : Query)
     (hv : ∀ v, v ∈ q.author ∨ v ∈ q.actor ∨ v ∈ q.participant ∨ v ∈ q.label ∨ v ∈ q.title ∨ v ∈ q.search → Quotable v)
@@ -319,26 +341,28 @@ theorem renderQuery_ok (isSpace : Char → Bool) (hlow : ∀ c : Char, c.isLower
   rcases ht with ((((((((⟨s, _, rfl⟩ | ⟨v, hv', rfl⟩) | ⟨v, hv', rfl⟩) | ⟨v, hv', rfl⟩) | ⟨v, hv', rfl⟩) | ⟨v, hv', rfl⟩) | ⟨kv, hkv, rfl⟩) | hno) | ⟨v, hv', rfl⟩) | rfl
   · refine ⟨(qo "status" (by simp)).1, (qo "status" (by simp)).2, ?_⟩
     unfold statusName; split <;> decide
-  · exact ⟨(qo "author" (by simp)).1, (qo "author" (by simp)).2, hv v (Or.inl hv')⟩
-  · exact ⟨(qo "actor" (by simp)).1, (qo "actor" (by simp)).2, hv v (Or.inr (Or.inl hv'))⟩
-  · exact ⟨(qo "participant" (by simp)).1, (qo "participant" (by simp)).2, hv v (Or.inr (Or.inr (Or.inl hv')))⟩
-  · exact ⟨(qo "label" (by simp)).1, (qo "label" (by simp)).2, hv v (Or.inr (Or.inr (Or.inr (Or.inl hv'))))⟩
-  · exact ⟨(qo "title" (by simp)).1, (qo "title" (by simp)).2, hv v (Or.inr (Or.inr (Or.inr (Or.inr (Or.inl hv')))))⟩
+  · exact ⟨(qo "author" (by simp)).1, (qo "author" (by simp)).2, quoteFor_ok v (hv v (Or.inl hv'))⟩
+  · exact ⟨(qo "actor" (by simp)).1, (qo "actor" (by simp)).2, quoteFor_ok v (hv v (Or.inr (Or.inl hv')))⟩
+  · exact ⟨(qo "participant" (by simp)).1, (qo "participant" (by simp)).2, quoteFor_ok v (hv v (Or.inr (Or.inr (Or.inl hv'))))⟩
+  · exact ⟨(qo "label" (by simp)).1, (qo "label" (by simp)).2, quoteFor_ok v (hv v (Or.inr (Or.inr (Or.inr (Or.inl hv')))))⟩
+  · exact ⟨(qo "title" (by simp)).1, (qo "title" (by simp)).2, quoteFor_ok v (hv v (Or.inr (Or.inr (Or.inr (Or.inr (Or.inl hv'))))))⟩
   · obtain ⟨h1, h2, h3⟩ := hm kv hkv
-    exact ⟨(qo "metadata" (by simp)).1, h1, (qo "metadata" (by simp)).2, h2, h3⟩
+    exact ⟨(qo "metadata" (by simp)).1, h1, (qo "metadata" (by simp)).2, h2, quoteFor_ok kv.2 h3⟩
   · cases hn : q.noLabel with
     | false => simp [hn] at hno
     | true =>
       simp only [hn, if_true, List.mem_singleton] at hno
       subst hno
       exact ⟨(qo "no" (by simp)).1, (qo "no" (by simp)).2, by decide⟩
-  · exact hv v (Or.inr (Or.inr (Or.inr (Or.inr (Or.inr hv')))))
+  · exact quoteFor_ok v (hv v (Or.inr (Or.inr (Or.inr (Or.inr (Or.inr hv'))))))
   · refine ⟨(qo "sort" (by simp)).1, (qo "sort" (by simp)).2, ?_⟩
     cases q.orderBy <;> cases q.dir <;> decide
 
-/-- `parse_render`: a structured query written through the documented grammar — every value in
-double quotes, one space between tokens — parses back to exactly that query.  Values may hold
-anything but the double quote: spaces, colons, single quotes, unicode. -/
+/-- `parse_render`: a structured query written through the documented grammar — every value
+between quotes of the kind it does not contain (double quotes by default, single quotes for a
+value that holds a double quote), one space between tokens — parses back to exactly that query.
+Values may hold anything but both kinds of quote at once (which the grammar cannot express):
+spaces, colons, one kind of quote, unicode. -/
 theorem parse_render (isSpace : Char → Bool) (clean : String → String)
     (hsp : isSpace ' ' = true) (hcolon : isSpace ':' = false)
     (hlow : ∀ c : Char, c.isLower = true → isSpace c = false)
